@@ -36,7 +36,7 @@ pub fn run(opts: &HashMap<String, String>) -> i32 {
     let seed: u64 = opt(opts, "seed", 1);
     let depth: usize = opt(opts, "depth", 3);
     trace::open(&out);
-    trace::install_hooks("p");
+    trace::install_hooks("pf");
     let mut rng = crate::rng(seed, 0xabc);
     let mut idx: u64 = 0;
     let mut emitted: u64 = 0;
